@@ -210,6 +210,37 @@ def parse_cbmc_json(text):
     return results, msgs, status
 
 
+_RES = re.compile(r'^\[(.+?)\] (?:line (\d+) )?(.*): (SUCCESS|FAILURE|UNKNOWN|ERROR)$')
+_HDR = re.compile(r'^(\S.*) function (\S+)$')
+
+
+def parse_cbmc_text(text):
+    """Parse cbmc's plain-text result section."""
+    if '** Results:' not in text:
+        return None, text.splitlines()[-12:], None
+    head, body = text.split('** Results:', 1)
+    msgs = [l for l in head.splitlines() if l.strip()]
+    results = []
+    cur_file, cur_fn = '?', None
+    status = None
+    for line in body.splitlines():
+        line = line.rstrip()
+        mo = _RES.match(line)
+        if mo:
+            results.append({'property': mo.group(1), 'description': mo.group(3), 'status': mo.group(4),
+                            'sourceLocation': {'file': cur_file, 'line': mo.group(2) or '?', 'function': cur_fn}})
+            continue
+        mo = _HDR.match(line)
+        if mo:
+            cur_file, cur_fn = mo.group(1), mo.group(2)
+            continue
+        if line.startswith('VERIFICATION'):
+            status = line.split()[-1].lower()
+    if status is None:
+        return None, msgs[-12:] + body.splitlines()[-12:], None
+    return results, msgs, status
+
+
 SOLVER_FLAGS = {
     'sat': [],
     'kissat': ['--external-sat-solver', 'kissat'],
@@ -320,16 +351,23 @@ def run_case(unit, case, tier, work, extra_defines=(), witness=False, want_trace
             flags += ['--trace']
         if m.get('object_bits'):
             flags += ['--object-bits', str(m['object_bits'])]
-        cmd = ['cbmc', cur, '--json-ui'] + flags
+        # The verdict run uses the plain-text UI: cbmc's JSON/trace writer aborts with an
+        # internal invariant violation on some failing properties over symbolic-size
+        # havocs; only the concretisation run (small, concrete sizes) asks for a JSON trace.
+        use_json = witness or want_trace
+        cmd = ['cbmc', cur] + (['--json-ui'] if use_json else []) + flags
         res.cmds.append(' '.join(cmd))
         timeout = m.get('timeout', 300) * (3 if tier == 'thorough' else 1)
         timeout = int(timeout * float(os.environ.get('VERIF_TIMEOUT_SCALE', '1')))
         rc, out, err, secs = run(cmd, work, timeout, mem_gb=m.get('mem_gb', 8),
-                                 stdout_path=os.path.join(work, 'cbmc.json'))
+                                 stdout_path=os.path.join(work, 'cbmc.out'))
         res.solver_seconds = secs
         if rc is None:
             raise Undecided('%s: cbmc timeout after %ds' % (res.label, timeout))
-        results, msgs, status = parse_cbmc_json(out)
+        if use_json:
+            results, msgs, status = parse_cbmc_json(out)
+        else:
+            results, msgs, status = parse_cbmc_text(out)
         res.messages = msgs
         if results is None:
             tail = ' | '.join(msgs[-4:]) if msgs else ''
@@ -424,7 +462,7 @@ def wit_names(unit_text):
 def extract_witness(trace, names, entry='harness'):
     vals = {}
     for s in trace:
-        if s.get('stepType') != 'assignment':
+        if s.get('stepType') != 'assignment' or s.get('hidden'):
             continue
         lhs = s.get('lhs', '')
         if lhs in names and lhs not in vals:
